@@ -2,7 +2,7 @@
 (* Validates observations of a REAL server upgraded from the previous domain level (driver c48.rs).
      {"a":"def","def":Def}                                   (first line; trusted input)
      {"a":"reset","h":i,"hseed":s,"level":prev}
-     {"a":"pre","st":DB,"user":{uuid:[attrs]}}
+     {"a":"pre","st":DB,"user":{uuid:[attrs]},"removed":{uuid:{attr:[values]}}}   (removed: KUpgrade RemoveSome)
      {"a":"upgrade","res":class,"level":n,"target":n,"verify":[..],"st":DB,"ents":[C15 entries],"schema":S}
    DB = {uuid: {"live":class, "attrs":{attr:[values]}}} *)
 EXTENDS KUpgrade, Json, IOUtils
@@ -15,10 +15,13 @@ Next == l <= Len(Rec) /\ l' = l + 1
 Spec == Init /\ [][Next]_l
 
 Judge == (l <= Len(Rec) /\ Rec[l].a = "upgrade") =>
-  LET r == Rec[l]  pre == Rec[l - 1].st  user == Rec[l - 1].user  def == Rec[1].def  post == r.st IN
+  LET r == Rec[l]  pre == Rec[l - 1].st  user == Rec[l - 1].user  def == Rec[1].def  post == r.st  removed == Rec[l - 1].removed IN
   /\ ((r.res = "ok" /\ r.level = r.target) \/ PrintT(<<"L1FAIL", "C48", l, "upgrade-failed">>))
   /\ (r.verify = <<>> \/ PrintT(<<"L1FAIL", "C48", l, "verify">>))
   /\ \A u \in DOMAIN user : (UserEntryKept(pre, post, user, u) \/ PrintT(<<"L1FAIL", "C48", l, "user " \o u>>))
+  /\ \A u \in DOMAIN removed : \A a \in DOMAIN removed[u] :
+        /\ (RemovedOk(pre, def, removed, u, a) \/ PrintT(<<"L1FAIL", "C48", l, "perturbation " \o u \o " " \o a>>))
+        /\ (RestoredAt(post, removed, u, a) \/ PrintT(<<"L1FAIL", "C48", l, "restore " \o u \o " " \o a>>))
   /\ \A u \in DOMAIN def : (DefEntryOk(post, def, u) \/ PrintT(<<"L1FAIL", "C48", l, "def " \o u>>))
   /\ \A i \in DOMAIN r.ents : ((DS!Live(r.ents[i]) => DS!Valid(r.ents[i], r.schema))
                                  \/ PrintT(<<"L1FAIL", "C48", l, "schema " \o r.ents[i].id \o " " \o DS!Why(r.ents[i], r.schema)>>))
